@@ -1,9 +1,10 @@
 // Package c06: bls.Verify / bls.Sign of the real code against
-//   (a) the Lean driver drv_c06 (generic Verify model on the point-equation instance, Lean Keccak),
-//   (b) the EVM: go-ethereum core/vm precompiles 0x07 (ecMul) and 0x08 (ecPairing) fed with the
-//       library's canonical encodings,
-//   (c) go-ethereum crypto/bn256/google (pure big.Int pairing) and math/big (bnref) for the
-//       expected signature / key bytes.
+//
+//	(a) the Lean driver drv_c06 (generic Verify model on the point-equation instance, Lean Keccak),
+//	(b) the EVM: go-ethereum core/vm precompiles 0x07 (ecMul) and 0x08 (ecPairing) fed with the
+//	    library's canonical encodings,
+//	(c) go-ethereum crypto/bn256/google (pure big.Int pairing) and math/big (bnref) for the
+//	    expected signature / key bytes.
 package c06
 
 import (
